@@ -28,7 +28,11 @@ func jsonToPlainStringMap(resultKey string, result map[string]string, data []byt
 		case jsonparser.Object:
 			return jsonToPlainStringMap(newResultKey, result, value)
 		case jsonparser.String:
-			result[newResultKey] = string(value)
+			unescaped, err := jsonparser.ParseString(value)
+			if err != nil {
+				return err
+			}
+			result[newResultKey] = unescaped
 		case jsonparser.Number:
 			result[newResultKey] = string(value)
 		}
